@@ -14,8 +14,9 @@ THEOREMS = ["C08_lookup", "C08_lookup_unique", "C08_isolated_symbol", "C08_isola
             "C08_export_before_and_after", "C08_emission_keeps_symbols",
             # the printer / front-end round trip that lifts the AST-level statements to source text
             "Front_roundtrip", "Front_assemble_printed", "Front_assemble_ast_printed",
-            "TextLift_renaming", "TextLift_fi_independent", "TextLift_print_canon", "TextLift_pair_canon"]
-PROOF_HEADER = "From A816 Require Import Properties.C08 Properties.FrontEnd Properties.TextLift."
+            "TextLift_renaming", "TextLift_fi_independent", "TextLift_print_canon", "TextLift_pair_canon",
+            "FrontExt_roundtrip", "FrontExt_assemble_printed", "TextLift_renaming_ident", "FrontExt_include_line"]
+PROOF_HEADER = "From A816 Require Import Properties.C08 Properties.FrontEnd Properties.TextLift Properties.FrontEndExt."
 RULE = ("generated nestings of blocks, named scopes, macro applications and loops with backward/forward/shadowing/"
         "sibling-reuse placements, plus the full shadowing matrix (outer definition x container x inner definition x reference form, width-inferred operands included); metamorphic twins: consistent renaming of a label, insertion of an unrelated definition "
         "inside another scope (output must not change); out-of-scope references (must be rejected); references to "
